@@ -61,6 +61,16 @@ package filters
 //@ ensures def: result == f2i(math.Floor(a))
 
 // ---- string filters (C16) --------------------------------------------------------
+// Optional filter parameters arrive as functions (values.Call builds them): calling one
+// converts the supplied argument, which may raise a TypeError, and has no other effect.
+//@ func functype func(int) int
+//@ names dflt
+//@ assigns nothing
+//@ panics values.TypeError
+//@ func functype func(string) string
+//@ names dflt
+//@ assigns nothing
+//@ panics values.TypeError
 
 //@ func filter "append"
 //@ props C16 C03 C01
@@ -99,6 +109,7 @@ package filters
 //@ props C16 C03 C01
 //@ panics values.TypeError
 //@ assigns alloc S$Int
+//@ requires optional: length != nil
 //@ ghost n Int = 0
 //@ at call length #1: n = result
 //@ ensures empty: len(s) == 0 ==> result == ""
